@@ -283,10 +283,13 @@ def tee_cases(draw, tier):
         closes[draw(st.integers(0, n - 1))] = None
     lag = [draw(st.one_of(st.integers(0, 5), st.integers(0, 30))) for _ in range(n)]
     return {"tool": "tee", "n": n, "length": length, "closes": closes, "lag": lag,
+            # nested: child 0 is handed, un-advanced, to a second tee and only consumed through that one's children
+            "nested": draw(st.sampled_from([0, 0, 0, 2, 3])),
             "src": draw(st.sampled_from(["agen", "aclass", "iter"]))}
 
 
 def check_tee(case):
+    case = dict(case)
     reg = Registry()
     n, length = case["n"], case["length"]
     ctx = Ctx("a")
@@ -294,8 +297,15 @@ def check_tee(case):
 
     async def consume():
         src = lazy_source(reg, length, lambda i: i, case["src"])
+        nonlocal n
         handle = a.tee(src, n)
         children = list(handle)
+        if case.get("nested"):
+            inner = a.tee(children[0], case["nested"])
+            children = list(inner) + children[1:]
+            n = len(children)
+            case["closes"] = ([None] * case["nested"] + list(case["closes"][1:]))[:n]
+            case["lag"] = (list(case["lag"]) * 2)[:n]
         yielded = [0] * n
         live = [True] * n
         for i, c in enumerate(case["closes"]):
@@ -350,6 +360,79 @@ def check_tee(case):
                         f"alive={alive} bound={bound} round={rounds} yielded={yielded} live={live}")
 
 
+# ---- re-borrowing ----------------------------------------------------------
+
+
+@st.composite
+def borrow_cases(draw, tier):
+    hi = 300 if tier == "quick" else 1500
+    return {"tool": "borrow-loop", "length": draw(st.integers(60, hi)), "per": draw(st.integers(1, 3)),
+            "parent": draw(st.sampled_from(["scoped", "borrow", "borrow-of-scoped", "scoped-nested"])),
+            "leave": draw(st.sampled_from(["abandon", "abandon", "close", "exhaust-islice"])),
+            "src": draw(st.sampled_from(["agen", "aclass"]))}
+
+
+def check_borrow_loop(case):
+    """a long stream is processed record by record, each record through a fresh borrow() of the same parent"""
+    reg = Registry()
+    length = case["length"]
+    ctx = Ctx("a")
+    bound = 4
+    worst = [0, 0]
+
+    async def records(parent):
+        done = 0
+        while done < length:
+            loan = a.borrow(parent)
+            taken = 0
+            if case["leave"] == "exhaust-islice":
+                async for item in a.islice(loan, case["per"]):
+                    del item
+                    taken += 1
+            else:
+                async for item in loan:
+                    del item
+                    taken += 1
+                    if taken >= case["per"]:
+                        break
+                if case["leave"] == "close":
+                    await loan.aclose()
+            del loan
+            # an abandoned loan is an async generator that the loop's finalizer hook closes on its next turn
+            close_orphans(ctx)
+            if not taken:
+                break
+            done += taken
+            if done % 7 == 0:
+                alive = reg.alive_gc(bound)
+                if alive > worst[0]:
+                    worst[0], worst[1] = alive, done
+
+    async def consume():
+        src = lazy_source(reg, length, lambda i: i, case["src"])
+        if case["parent"] == "borrow":
+            await records(a.borrow(src))
+        elif case["parent"] == "scoped":
+            async with a.scoped_iter(src) as it:
+                await records(it)
+        elif case["parent"] == "scoped-nested":
+            async with a.scoped_iter(src) as outer:
+                async with a.scoped_iter(outer) as it:
+                    await records(it)
+        else:
+            async with a.scoped_iter(src) as it:
+                await records(a.borrow(it))
+
+    with loop_mode(ctx, "hooks"):
+        outcome = run(ctx, consume())
+        close_orphans(ctx)
+    if outcome[0] != "return":
+        raise Violation("C20/borrow-loop/unexpected-exception", repr(outcome))
+    if worst[0] > bound:
+        raise Violation("C20/borrow-loop/retains-more-than-window",
+                        f"alive={worst[0]} after {worst[1]} items, bound={bound} length={length} {case}")
+
+
 # ---- groupby ---------------------------------------------------------------
 
 
@@ -398,6 +481,8 @@ def check_groupby(case):
 
 def nontrivial(case):
     name = case["tool"]
+    if name == "borrow-loop":
+        return case["length"] >= 60
     if name == "tee":
         return case["length"] >= 10 * (max(case["lag"]) + case["n"] + 4)
     if name == "groupby":
@@ -411,6 +496,8 @@ def shards(tier):
     out = [Shard(name, check_stream, strategy=stream_cases(name, tier), n=150, nontrivial=nontrivial,
                  thorough_mult=10) for name in list(STREAM) + list(AGG)]
     out.append(Shard("tee", check_tee, strategy=tee_cases(tier), n=800, nontrivial=nontrivial, thorough_mult=10))
+    out.append(Shard("borrow-loop", check_borrow_loop, strategy=borrow_cases(tier), n=150, nontrivial=nontrivial,
+                     thorough_mult=10))
     out.append(Shard("groupby", check_groupby, strategy=groupby_cases(tier), n=250, nontrivial=nontrivial,
                      thorough_mult=10))
     return out
